@@ -374,6 +374,10 @@ def rule_d(model, rep):
     rep.minimum(R, 1)
 
 
+from . import c01 as _c01, c08 as _c08, c19 as _c19  # noqa: E402
+from .shared import Renamed as _Renamed  # noqa: E402
+
+
 def run(model, rep):
     rep.explanation = __doc__
     rep.assumptions = ["identify languages are modelled over a representative alphabet (printable ASCII, NL, TAB, NUL, one non-ASCII stand-in)",
@@ -382,3 +386,8 @@ def run(model, rep):
     rule_a(model, rep, table)
     rule_bc(model, rep, table)
     rule_d(model, rep)
+    # a preset recognises (and verifies) its own schemes only if each scheme's verify() recomputes what hash() made, identify() answers
+    # for every str/bytes input, and the lazily built presets (LazyCryptContext) finish their one-time construction correctly
+    _c01.rule_d(model, _Renamed(rep, {"C01.d": "C17.e-hash-verify-wiring"}, "C17.x-"))
+    _c08.rule_c(model, _Renamed(rep, {"C08.c": "C17.f-decoder-errors"}, "C17.x-"))
+    _c19.rule_a(model, _Renamed(rep, {"C19.a": "C17.g-lazy-preset-init"}, "C17.x-"))
